@@ -270,4 +270,24 @@ def verus_catalogue(tier='quick', seed=0) -> List[Decl]:
 
 
 def all_decls(tier='thorough', seed=0):
-    return verus_catalogue(tier, seed)
+    """every declaration any check may name (for --replay)"""
+    from . import kani_side, spellings
+    out = list(verus_catalogue(tier, seed))
+    ks = kani_side
+    for f in (ks.float_decls, ks.int_kani_decls, ks.default_decls, ks.fromstr_decls, ks.serde_decls, ks.arbitrary_int_decls,
+              ks.arbitrary_float_decls, ks.arbitrary_string_decls, ks.canonical_decls, ks.guard_decls, ks.display_decls, ks.view_extra_decls,
+              spellings.numeric_spellings):
+        try:
+            out += f(tier)
+        except TypeError:
+            out += f()
+    out += ks.serde_string_decls()
+    for p in ('C05', 'C09', 'C12'):
+        try:
+            out += ks.harnesses_for(p, tier, seed)[0]
+        except Exception:
+            pass
+    seen = {}
+    for d in out:
+        seen.setdefault(d.id, d)
+    return list(seen.values())
